@@ -1141,3 +1141,74 @@ func init() {
 		},
 	}
 }
+
+func init() {
+	props["C15"] = &propDef{
+		ID: "C15",
+		Anchored: []string{"MaskedEqual", "MaskedNotEqual", "MaskedGreater", "MaskedLess", "MaskedInside", "MaskedOutside", "MaskedValues", "MaskedReduce", "MaskedCount", "MaskedAny", "MaskedAll", "doMask", "FlatMaskedContiguous", "FlatNotMaskedContiguous",
+			"FlatMaskedEdges", "FlatNotMaskedEdges", ").Filled", ").FilledInplace", "FlatMaskedIterator", "transposeMask", ").MaskAt", ").Slice", "Iter"},
+		Bounds: map[string]interface{}{"predicates": "10 predicate forms (Equal, NotEqual, Greater, GreaterEqual, Less, LessEqual, Inside, Outside, Values with and without atol) x 12 ordered dtypes x soft/hard x with/without a prior mask; data, thresholds and every prior mask bit symbolic (3 elements)",
+			"inspection": "every mask over <=6 (quick) / <=8 (thorough) elements (each bit symbolic) on shapes (), (4), (3,1), (1,3), (2,3), (2,2,2): counts, any/all (global and per axis), contiguous runs, edges, Filled/FilledInplace with symbolic data and fill value",
+			"movement": "mask follows elements through lazy T, physical Transpose (also mask storage order) and slicing with solver-enumerated ranges", "operations": "Add/Sub/Mul on masked operands: positions valid in all operands hold the unmasked value"},
+		Instances: func(tier string, seed int64) []Instance {
+			var out []Instance
+			preds := []string{"Equal", "NotEqual", "Greater", "GreaterEqual", "Less", "LessEqual", "Inside", "Outside", "Values2", "Values3"}
+			for _, p := range preds {
+				for _, dt := range ordDtypes {
+					for _, soft := range []int{0, 1} {
+						for _, prior := range []int{0, 1} {
+							out = append(out, mkInst("vhC15Pred", map[string]interface{}{"dtype": dt, "pred": p, "shape": []int{3}, "soft": soft, "prior": prior}, "dtype", "pred", "soft", "prior"))
+						}
+					}
+				}
+			}
+			for _, dt := range fltDtypes {
+				for _, soft := range []int{0, 1} {
+					out = append(out, mkInst("vhC15Pred", map[string]interface{}{"dtype": dt, "pred": "Values3", "shape": []int{2}, "soft": soft, "prior": 1, "rtol1": 1}, "dtype", "pred", "soft", "rtol1"))
+				}
+			}
+			for _, dt := range []string{"float64", "int8", "uint16"} {
+				for _, p := range []string{"Greater", "Inside", "Equal"} {
+					out = append(out, mkInst("vhC15Pred", map[string]interface{}{"dtype": dt, "pred": p, "shape": []int{2, 2}, "soft": 0, "prior": 1}, "dtype", "pred", "shape"))
+				}
+			}
+			ishapes := [][]int{{}, {4}, {3, 1}, {1, 3}, {2, 3}, {2, 2, 2}}
+			if tier == "thorough" {
+				ishapes = append(ishapes, []int{8}, []int{2, 4}, []int{4, 2}, []int{2, 1, 3})
+			}
+			for _, sh := range ishapes {
+				for _, what := range []string{"count", "runs", "edges", "filled", "filledinplace"} {
+					if len(sh) == 0 && (what == "runs" || what == "edges") {
+						continue
+					}
+					out = append(out, mkInst("vhC15Inspect", map[string]interface{}{"shape": sh, "what": what}, "shape", "what"))
+				}
+				for ax := 0; ax < len(sh); ax++ {
+					if len(sh) >= 2 {
+						out = append(out, mkInst("vhC15Inspect", map[string]interface{}{"shape": sh, "what": "axis", "axis": ax}, "shape", "what", "axis"))
+					}
+				}
+			}
+			for _, sh := range [][]int{{2, 3}, {3, 1}, {1, 3}, {2, 2, 2}, {3}} {
+				for _, op := range []string{"T", "TX"} {
+					if len(sh) >= 2 {
+						out = append(out, mkInst("vhC15Move", map[string]interface{}{"shape": sh, "op": op}, "shape", "op"))
+					}
+				}
+				for ax := 0; ax < len(sh); ax++ {
+					if sh[ax] >= 2 {
+						out = append(out, mkInst("vhC15Move", map[string]interface{}{"shape": sh, "op": "slice", "axis": ax}, "shape", "op", "axis"))
+					}
+				}
+			}
+			for _, sh := range [][]int{{3}, {2, 2}} {
+				for _, op := range []string{"Add", "Sub", "Mul"} {
+					for _, bm := range []int{0, 1} {
+						out = append(out, mkInst("vhC15Ops", map[string]interface{}{"shape": sh, "op": op, "bmasked": bm}, "shape", "op", "bmasked"))
+					}
+				}
+			}
+			return out
+		},
+	}
+}
